@@ -310,6 +310,9 @@ pub struct PropRun {
     pub replay_out: Option<crate::eng::ReplayOutcome>,
     /// optional harness-name filter (substring) for development
     pub only: Option<String>,
+    /// property-level wall budget: harnesses that would start after it are skipped and reported (never a pass)
+    pub budget_s: f64,
+    pub skipped: Vec<String>,
 }
 
 fn fnv(s: &str) -> u64 {
@@ -374,6 +377,9 @@ pub fn candidate_from_json(j: &J) -> Option<(String, HashMap<String, f64>, Vec<T
 }
 
 impl PropRun {
+    pub fn over_budget(&self) -> bool {
+        self.t0.elapsed().as_secs_f64() > self.budget_s
+    }
     pub fn new(id: &str, tier: &str, seed: i64) -> Self {
         PropRun {
             id: id.to_string(),
@@ -389,6 +395,8 @@ impl PropRun {
             replay: None,
             replay_out: None,
             only: None,
+            budget_s: if tier == "thorough" { 2700.0 } else { 1500.0 },
+            skipped: vec![],
         }
     }
     pub fn funcs(&mut self, v: &[&str]) {
@@ -650,6 +658,9 @@ impl PropRun {
         ]);
         let _ = std::fs::create_dir_all(format!("{}/evidence", verif_dir));
         let _ = std::fs::write(format!("{}/evidence/{}.json", verif_dir, self.id), ev.to_string());
+        if !self.skipped.is_empty() {
+            println!("SKIPPED property={} n={} harnesses not started within the property's wall budget of {} s: {:?}", self.id, self.skipped.len(), self.budget_s, self.skipped);
+        }
         if solver_errors > 0 {
             // an `(error` line makes the query inconclusive (never a pass); a non-zero count means the encoder emitted
             // something a solver rejected and must be looked at
